@@ -31,9 +31,10 @@ impl DestructTuple {
         if !return_type.is_tuple() {
             return Err(Error::NotATuple(instruction.str));
         }
-        let Some(len) = return_type.tuple_len() else {
+        let Some(types) = return_type.flatten_tuple() else {
             return Err(Error::CannotDetermineLength(instruction.str));
         };
+        let len = types.len();
         let idents_len = idents.len();
         if len != idents_len {
             return Err(Error::WrongLength {
@@ -42,12 +43,15 @@ impl DestructTuple {
                 idents_len,
             });
         }
-        let result = Self {
+        // Only the types of the new names are registered here; their values become known when the
+        // statement is recreated. Registering values now would let the right-hand side of this very
+        // statement see the names it declares: `(a, b) := (b, 5)` must read the previous `b`.
+        local_variables.extend(zip(idents.iter().cloned(), types.iter().cloned()));
+        Ok(Self {
             idents,
             instruction,
-        };
-        result.insert_local_variables(local_variables);
-        Ok(result.into())
+        }
+        .into())
     }
     fn insert_local_variables(&self, local_variables: &mut LocalVariables) {
         match &self.instruction.instruction {
